@@ -128,11 +128,11 @@ type Spec struct {
 	// Ignore: atoms with one of these prefixes are bookkeeping conditions
 	// (loop counters of symbolic loops, infallible entropy reads) that the
 	// specification does not constrain.
-	Ignore    []string
-	MinPaths  int
+	Ignore   []string
+	MinPaths int
 	// Optional: the target is a small helper whose effect is also checked where it is used; if it has
 	// been inlined away (the function no longer exists) the specification is skipped, not failed.
-	Optional bool
+	Optional  bool
 	MaxVisits int
 	SymLoops  bool
 }
